@@ -214,3 +214,36 @@ Proof.
   destruct (Z.eqb_spec v version_ssl) as [->|_]; [exfalso; eapply Hssl; eauto|].
   apply session_sshape. apply case_text_safe.
 Qed.
+
+(* ---------- no crash, whole connection ---------- *)
+Lemma sshape_no_crash c log : sshape c log -> existsb crashp log = false /\ ends_closed log = true.
+Proof.
+  intros S. destruct S as [|pre Q|pre Q O Em|pre body tc Q O Em B T].
+  - split; reflexivity.
+  - pose proof (quiet_inert _ Q) as [_ _ _ _ _ _ _ I8]. rewrite existsb_app, I8. split; [reflexivity|].
+    unfold ends_closed. rewrite existsb_app. cbn. apply orb_true_r.
+  - pose proof (quiet_inert _ Q) as [_ _ _ _ _ _ _ I8].
+    destruct (mw_events_inertish (S (ok_prefix (cfg_mws c))) 0) as (_ & _ & _ & M4 & _).
+    rewrite !existsb_app, I8, M4. split; [reflexivity|]. apply ends_closed_end.
+  - pose proof (quiet_inert _ Q) as [_ _ _ _ _ _ _ I8]. pose proof (sess_inert _ B) as [_ _ _ _ _ _ _ J8].
+    destruct (mw_events_inertish (List.length (cfg_mws c)) 0) as (_ & _ & _ & M4 & _).
+    rewrite !existsb_app, I8, M4, J8. unfold ends_closed. rewrite !existsb_app.
+    destruct T as [->|[-> _]]; cbn; rewrite !orb_true_r; split; reflexivity.
+Qed.
+
+Theorem serve_no_crash c raw tls : text_safe c ->
+  existsb crashp (serve c raw tls) = false /\ ends_closed (serve c raw tls) = true.
+Proof.
+  intros Hts. unfold serve.
+  destruct (start c raw) as [[[v after] rest]|]; [|split; reflexivity].
+  destruct (v =? version_cancel); [split; reflexivity|].
+  destruct (v =? version_ssl); [|apply (sshape_no_crash c); apply session_sshape; exact Hts].
+  assert (G : forall b l, existsb crashp l = false /\ ends_closed l = true ->
+              existsb crashp (RawOut b :: l) = false /\ ends_closed (RawOut b :: l) = true) by (intros b l [A B]; split; assumption).
+  destruct (cfg_tls c); apply G.
+  - destruct tls as [plain|]; [|split; reflexivity].
+    destruct (start c plain) as [[[v2 after2] rest2]|]; [|split; reflexivity].
+    destruct (v2 =? version_cancel); [split; reflexivity|apply (sshape_no_crash c); apply session_sshape; exact Hts].
+  - destruct (start c rest) as [[[v2 after2] rest2]|]; [|split; reflexivity].
+    destruct (v2 =? version_cancel); [split; reflexivity|apply (sshape_no_crash c); apply session_sshape; exact Hts].
+Qed.
